@@ -241,3 +241,33 @@ def send_task_success_api():
 
 def send_task_failure_api():
     return _scoped(_send_task_failure_api())
+
+
+def get_execution_history_api(which):
+    """aws_api_GetExecutionHistory: a read -- the stored history (and every store) is left exactly as it was -- that
+    answers the stored events in order, or, with reverseOrder, exactly the reverse list (C09)."""
+    H = "self.execution_history[params['executionArn']]"
+    HAS = "(isstr(params.get('executionArn')) and params['executionArn'] in self.execution_history)"
+    sc = Registry()
+    externals(sc)
+    for g, t in (("n_json", "int"), ("json_arg", "val"), ("json_heap", "heap")):
+        sc.ghost(g, t)
+    sc.externals.insert(0, ("jsonify", Contract("ext:jsonify", params=["obj"], modifies=None, result_type="fn",
+                                                ghost={"n_json": "n_json + 1", "json_arg": "obj", "json_heap": "__heap__"})))
+    c = Contract(
+        MODS[which] + "aws_api_GetExecutionHistory", env=ENV,
+        requires=["isjson(params)", "isdict(params)", "isdict(self.execution_history)", "not same(params, self.execution_history)",
+                  "implies(%s, islist(%s))" % (HAS, H)],
+        ensures=[
+            ("C09:history-read-never-writes", "unchanged(self.execution_history) and implies(old(%s), same_contents(old(%s), old(%s)))" % (HAS, H, H)),
+            ("C09:forward-is-the-stored-list", "implies(n_json == old(n_json) + 1 and not old(istrue(params.get('reverseOrder', False))), "
+                                               "at_snapshot('json_heap', same_contents(json_arg['events'], old(%s))))" % H),
+            ("C09:reverse-is-exactly-the-reverse", "implies(n_json == old(n_json) + 1 and old(istrue(params.get('reverseOrder', False))), "
+                                                   "at_snapshot('json_heap', isreversed(json_arg['events'], old(%s))))" % H),
+            ("C09:answers-a-copy", "implies(n_json == old(n_json) + 1, not same(at_snapshot('json_heap', json_arg['events']), old(%s)))" % H),
+            ("C09:unknown-execution-is-an-error", "implies(not old(%s), %s)" % (HAS, ERR)),
+        ],
+        raises={}, covers_exit=[("answered-reversed", "n_json == old(n_json) + 1 and old(istrue(params.get('reverseOrder', False)))")],
+        modifies=None)
+    c.scope = sc
+    return c
